@@ -50,10 +50,14 @@ theorem Built.value_sound {s : Schema} {d : QueryDoc} {a b : VLinks} {es : List 
     injection ho' with ho'
     subst ho'
     exact hop
+  | vdef op vd l _ _ =>
+    intro e' he' hv'
+    rw [List.mem_singleton.1 he'] at hv'
+    exact absurd hv' (fun h => h)
   | ev e hv =>
     intro e' he' hv'
     rw [List.mem_singleton.1 he'] at hv'
-    exact absurd hv' hv
+    exact absurd hv' hv.notValue
 
 /-- soundness under the walker's typing: every value event is about a value occurrence of the
     document and carries what the specification demands of it -/
